@@ -193,18 +193,22 @@ CLAIMED["C13"] = {
 }
 
 CLAIMED["C10"] = {
-    "text": "Table obligations decided exhaustively on the source: the two call sites and the two cache_clear partials "
-            "use distinct literal cache names (the two functions' histories cannot corrupt one another), and every "
-            "access to cache/reminders/reminder_keys lies under the one lock object __init__ creates (method-level `with lock` or lock-holding "
-            "callers only). The run() algorithm itself (wrap detection, offsets, disappearing/reappearing devices, "
-            "cache_clear) is checked by a bounded enumeration of snapshot histories against a reference model "
-            "(labelled bounded). The front-end callers are under deductive contract (nowrap=True: filter consulted once "
-            "under the function's own cache name and its figures returned; nowrap=False: raw figures). Claimed as "
-            "exploration, not proof: the algorithm the property is about is not under a deductive contract.",
-    "note": "bounded stand-in for _WrapNumbers.run/_remove_dead_reminders (nested dict/defaultdict/set state is outside the "
-            "VC generator); threading.Lock mutual exclusion assumed.",
+    "text": "Discharged VCs over the real source: _WrapNumbers.run under a one-step contract from any state satisfying "
+            "the representation invariant (the post-state satisfies it again: induction over the history), symbolically "
+            "executed for every shape of replay/c10shape.py (devices cached / in the snapshot x every reachable layout of "
+            "stored and indexed offsets) with unconstrained counter values: result = raw + offset, offset grows by the "
+            "previous raw value exactly at a decrease, result never below the previous output, devices that are not in the "
+            "snapshot and new ones start afresh, the snapshot is stored, the other name's state and the caller's dict are "
+            "untouched, no exception. _WrapNumbers.cache_clear under contract (all / one / unknown name). The front-end "
+            "callers under contract (nowrap=True: filter consulted once under the function's own cache name and its "
+            "figures returned; nowrap=False: raw figures). Table obligations decided exhaustively on the source: distinct "
+            "literal cache names at the two call sites and the two cache_clear partials, every access to the three maps "
+            "under the one lock object __init__ creates. A bounded enumeration of snapshot histories against a reference "
+            "model stays as a second, representation-independent check (labelled bounded).",
+    "note": "SHAPE BOUND: the step contract is proved per shape - values, offsets and history length unbounded; number "
+            "of devices (<= 4) and tuple width (<= 3) by enumeration, stated as an assumption in the evidence; "
+            "threading.Lock mutual exclusion assumed; two-thread schedules only through lock ownership.",
     "ref": "DESIGN.md section 5 (C10)",
-    "category": "exploration",
 }
 
 CLAIMED["C11"] = {
